@@ -22,17 +22,19 @@ theorem embedObj_setPid (p : PObj) (s : Option (Option Int)) (pid : Nat) :
   unfold embedObj; split <;> rfl
 
 theorem WP.ext' {a b : WP} (h1 : a.now = b.now) (h2 : a.objs = b.objs) (h3 : a.gone = b.gone)
-    (h4 : a.cbLog = b.cbLog) (h5 : a.sleeps = b.sleeps) (h6 : a.calls = b.calls) : a = b := by
+    (h4 : a.cbLog = b.cbLog) (h5 : a.sleeps = b.sleeps) (h6 : a.calls = b.calls)
+    (h7 : a.cbSeen = b.cbSeen) : a = b := by
   cases a; cases b; simp_all
 
 theorem embed_markGone (hasCb : Bool) (w : WP) (sub : Nat → Option (Option Int)) (pid : Nat) (v : Option Int) :
     WPM.embed ⟨markGone hasCb w pid v, sub⟩ = markGone hasCb (WPM.embed ⟨w, sub⟩) pid v := by
+  rw [markGone_eq, markGone_eq]
   apply WP.ext' <;> try rfl
-  funext q
-  simp only [WPM.embed, markGone]
-  by_cases e : q = pid
-  · subst e; simp only [if_true]; unfold embedObj; split <;> rfl
-  · simp only [e, if_false]
+  · funext q
+    simp only [WPM.embed]
+    by_cases e : q = pid
+    · subst e; simp only [if_true]; unfold embedObj; split <;> rfl
+    · simp only [e, if_false]
 
 theorem procWait_pid (c : Cfg) (env : Env) (timeout : Option Rat) (fuel : Nat) (now : Rat) (p : PObj) :
     (procWait c env timeout fuel now p).obj.pid = p.pid := by
@@ -57,6 +59,7 @@ theorem embed_afterWait (m : WPM) (r re : WaitRes) (pid : Nat) (t : Rat) (s' : O
   · rfl
   · rfl
   · simp [WPM.embed, afterWait, hsl]
+  · rfl
   · rfl
 
 /-- the shape of `check_gone` once `proc.wait` has answered `r` -/
